@@ -271,6 +271,8 @@ class Analysis:
             return self.cellkey(f, e["e"], st)
         if k == "gvar":
             return "::%s" % e.get("n")
+        if k == "this":
+            return "this"
         if k == "var":
             b = st.ptr.get((f.name, e["id"]))
             if b is not None and not e.get("pd"):
@@ -284,6 +286,8 @@ class Analysis:
                     if (f.name, base["id"]) in st.objptr:
                         return "%s.%s" % (p, e["f"])
                     return "%s->%s" % (p, e["f"])
+                if isinstance(base, dict) and base.get("k") == "this":
+                    return "this->%s" % e["f"]
                 bk = self.cellkey(f, base, st)
                 return None if bk is None else "(%s)->%s" % (bk, e["f"])
             bk = self.cellkey(f, e["b"], st)
